@@ -66,10 +66,13 @@ var c07Leaves = []string{"(lp 0)", "(lp-nt 0)", "(mm)", "(lp-cond 0)", "(lp-and 
 	"(apply lp (list 0))", `@(future (gate! "never"))`,
 	"(lp0)", "(lpx 1)", "(pa 1)", "(lpd 1)", "(lpl 1)", "(lpi true)", "@shared-pending",
 	// a future that keeps writing bindings while the caller resolves symbols
-	"(do (def bg (future (lp-def 0))) (lp-nt 0))", "(let [bg (future (lp-def 0))] (lp-cond 0))"}
+	"(do (def bg (future (lp-def 0))) (lp-nt 0))", "(let [bg (future (lp-def 0))] (lp-cond 0))",
+	// a cancelled future is dereferenced (twice) before the program goes on
+	"(let [f (future (lp-sleep 0))] (do (future-cancel f) (try @f (catch e nil)) (try @f (catch e nil)) (lp 0)))",
+	"(let [f (future (lp 0))] (do (sleep 3) (future-cancel f) (try @f (catch e nil)) (lp-sleep 0)))"}
 var c07LeafNames = []string{"tail", "nontail", "macro", "cond", "and-or", "thread", "sleep-loop", "sleep", "swap-loop", "apply", "deref-ignoring-body",
 	"tail-noargs", "tail-symbol-arg", "mutual-symbol-arg", "tail-do-atoms", "tail-let-symbol", "tail-if-symbol", "deref-shared-pending",
-	"background-env-writer", "background-env-writer-let"}
+	"background-env-writer", "background-env-writer-let", "cancelled-future-deref", "cancelled-future-deref2"}
 
 // endless returns an expression that never terminates on its own.
 func (g *c07Gen) endless(depth int, allowTry bool) string {
@@ -209,6 +212,11 @@ func (w *c07World) OnStep(s *Sim, t *Task, ctx context.Context, ast, env interfa
 			w.tStar = s.Now()
 		}
 		w.afterAll++
+		if t != w.caller && w.afterAll-w.after > 200*w.bound {
+			// a future body that goes on and on after the cancellation: not judged (EVAL's return is what the
+			// statement is about), but the run must end
+			s.RequestAbort("body-overrun")
+		}
 		if t == w.caller {
 			w.after++
 			if w.after > w.bound+50 {
@@ -404,6 +412,9 @@ func (c07) Run(tp *Tape, opt RunOpt) *RunOut {
 	}
 	_ = traceHTime
 	switch {
+	case s.Aborted == "body-overrun":
+		out.Stats["probe:future-body-still-running-long-after-cancellation"]++
+		out.Discard = "future-body-overrun"
 	case s.Aborted == "overrun":
 		viol("prompt", "steps-after-cancel:"+shape, "the calling thread executed more than "+strconv.FormatInt(w.after, 10)+" evaluation steps after its context had ended (T*="+w.tStar.String()+") and was still running")
 	case s.Hang != nil:
